@@ -278,7 +278,60 @@ def direct(kind, path, extra, info):
                      Node.__init__, Leaf.__init__, CollectionManifest_load()))
 
 
+_REF_SIGS = None
+
+
+def battery(path, info):
+    """referential damages: the index / manifest is intact and lists 8 signatures with pairwise disjoint hashes.
+    After a successful load: len(), signatures(), and for every listed signature a search, a gather step and a
+    prefetch for it.  Recorded per query: F(ound itself) / M(issing, no error) / E:<Class>."""
+    global _REF_SIGS
+    import referential
+    if _REF_SIGS is None:
+        _REF_SIGS = referential.make_sigs()
+    b = {}
+    info["facts"]["battery"] = b
+    idx = sourmash.load_file_as_index(path)
+    try:
+        b["len"] = str(len(idx))
+    except Exception as e:  # noqa: BLE001
+        b["len"] = "E:" + type(e).__name__
+    try:
+        b["signatures"] = sorted(ss.name for ss in idx.signatures())
+    except Exception as e:  # noqa: BLE001
+        b["signatures"] = "E:" + type(e).__name__
+
+    def one(idx, op, q):
+        try:
+            if op == "search":
+                r = [x.signature.name for x in idx.search(q, threshold=0.9)]
+            elif op == "gather":
+                g = idx.best_containment(q)
+                r = [g.signature.name] if g else []
+            else:
+                r = [x.signature.name for x in idx.prefetch(q, threshold_bp=0)]
+            return "F" if q.name in r else "M"
+        except Exception as e:  # noqa: BLE001
+            return "E:" + type(e).__name__
+    for op in ("search", "gather", "prefetch"):
+        try:
+            idx = sourmash.load_file_as_index(path)
+            b[op] = [one(idx, op, q) for q in _REF_SIGS]
+        except Exception as e:  # noqa: BLE001
+            b[op] = ["E:" + type(e).__name__] * len(_REF_SIGS)
+    res = []
+    for q in _REF_SIGS:                        # and once with a fresh index per query (no node cache)
+        try:
+            res.append(one(sourmash.load_file_as_index(path), "search", q))
+        except Exception as e:  # noqa: BLE001
+            res.append("E:" + type(e).__name__)
+    b["search_fresh"] = res
+    return "ok"
+
+
 def load(kind, path, extra, info):
+    if kind == "ref":
+        return battery(path, info)
     if kind in ("sig", "siggz"):
         n = 0
         for ss in observe_chain(path, info, lambda p: list(sourmash.load_file_as_signatures(p))):
